@@ -27,6 +27,15 @@ Example ex_too_deep :
                (encode_fields ex_tree) = Err EMaxDepth.
 Proof. vm_compute. reflexivity. Qed.
 
+(* parse_serialize's hypotheses hold for a tree with every construct serialize can emit *)
+Definition ex_ser_tree : list field :=
+  [ FVarint 1 300; FBytes 2 [104; 105]; FFixed32 7 4294967295;
+    FMsg 3 [ FGroup 9 [ FPacked 4 0 [1; 128; 16384] ] ] ].
+Example ex_ser_ok : wf_fields ex_opts ex_ser_tree = true /\ forallb packed_varint_only ex_ser_tree = true.
+Proof. vm_compute. split; reflexivity. Qed.
+Example ex_ser_unsupported : enc_plans [PlOther 1 6] = None.
+Proof. reflexivity. Qed.
+
 (* a non-canonical (overlong) varint is well-formed input: acceptance is wider than the encoder's image *)
 Example ex_overlong : parse_fields ex_opts 0 [8; 128; 0] = Ok [FVarint 1 0].
 Proof. vm_compute. reflexivity. Qed.
